@@ -330,17 +330,15 @@ theorem lemire_wrapper (F : FTy) (hF : IsLemireFloat F) (q : Int) (w : Nat) (neg
   obtain ⟨p, eb, sm, lg, a, b, LL, _, _⟩ := lemLayout_of hF
   exact LexVerif.Proof.Lemire.lemire_wrapper LL q w neg hq.1 hq.2 hw S0 S1 h hv num den hd hlo hhi
 
-/-- **`LemireFallbackBrackets` holds** (`Proof.LemireFallback`) -/
-theorem lemire_fallback_brackets : LemireFallbackBrackets := by
-  intro F hF q w fp hq hw hcf hinv
-  have hden : 0 < (powFrac 10 q w).2 := by
-    unfold powFrac; split
-    · exact Nat.one_pos
-    · exact Nat.pow_pos (by decide)
+/-- an invalid-marked answer of `compute_float` is an estimate of the value (`Proof.LemireStable.EstOK`): normalised
+mantissa, small un-biased exponent, value within `[mant, mant + 4)` at that exponent -/
+theorem lemire_invalid_estOK (F : FTy) (hF : IsLemireFloat F) (q : Int) (w : Nat) (fp : ExtendedFloat80)
+    (hw : w < 2 ^ 64) (hcf : Lemire.computeFloat F q w false = .ok fp) (hinv : fp.exp < 0) :
+    ∃ p eb, Layout F p eb ∧ LexVerif.Proof.Lemire.EstOK F p fp (powFrac 10 q w).1 (powFrac 10 q w).2 := by
   have key : ∀ {p eb sm lg rlo rhi}, LemLayout F p eb sm lg rlo rhi → (27 : Int) ≤ lg → rhi < 28 → rlo < 28 →
       2 ^ 64 ≤ 5 ^ (rlo + 1) * 2 ^ p →
       (∀ e, 1 ≤ e → e ≤ rlo → LexVerif.Proof.Lemire.tieRowOk p e = true) → 91 ≤ 2 ^ (eb - 1) - 1 →
-      Bracket F fp (powFrac 10 q w).1 (powFrac 10 q w).2 := by
+      LexVerif.Proof.Lemire.EstOK F p fp (powFrac 10 q w).1 (powFrac 10 q w).2 := by
     intro p eb sm lg rlo rhi LL hlg hrhi hrlo hwin htc hbias
     by_cases hdom : LemirePartialDomain F q w
     · obtain ⟨fp2, e1, e2, _⟩ := lemire_sound_partial F hF q w hw hdom
@@ -352,7 +350,6 @@ theorem lemire_fallback_brackets : LemireFallbackBrackets := by
       rw [LL.largest] at hlarge
       rw [LL.smallest] at hsmall
       have hlg308 := LL.lg308
-      unfold Bracket roundedDown
       by_cases h0 : 0 ≤ q
       · obtain ⟨qn, rfl⟩ : ∃ qn : Nat, q = (qn : Int) := ⟨q.toNat, by omega⟩
         obtain ⟨fp2, e1, _, e3⟩ := LexVerif.Proof.Lemire.computeFloat_trunc_pos LL hrhi qn (by omega) (by omega)
@@ -361,7 +358,7 @@ theorem lemire_fallback_brackets : LemireFallbackBrackets := by
         have hpf : powFrac 10 (qn : Int) w = (w * 10 ^ qn, 1) := by
           unfold powFrac; rw [if_pos (by omega)]; simp
         rw [hpf]
-        exact LexVerif.Proof.Lemire.bracket_of_estOK LL.lay fp2 _ _ Nat.one_pos (e3 hinv)
+        exact e3 hinv
       · obtain ⟨e, rfl⟩ : ∃ e : Nat, q = -(e : Int) := ⟨(-q).toNat, by omega⟩
         have hpf : powFrac 10 (-(e : Int)) w = (w, 10 ^ e) := by
           unfold powFrac; rw [if_neg (by omega)]; simp
@@ -372,10 +369,35 @@ theorem lemire_fallback_brackets : LemireFallbackBrackets := by
           rw [e1] at hcf; injection hcf with hcf; subst hcf; omega
         · obtain ⟨fp2, e1, _, e3⟩ := LexVerif.Proof.Lemire.computeFloat_trunc_neg LL hrlo e (by omega) (by omega) w hw0 hw
           rw [e1] at hcf; injection hcf with hcf; subst hcf
-          exact LexVerif.Proof.Lemire.bracket_of_estOK LL.lay fp2 _ _ (Nat.pow_pos (by decide)) (e3 hinv)
+          exact e3 hinv
   rcases hF with h | h <;> subst h
-  · exact key lemLayout_f64 (by decide) (by decide) (by decide) (by decide) LexVerif.Proof.Lemire.tieRows_f64 (by decide)
-  · exact key lemLayout_f32 (by decide) (by decide) (by decide) (by decide) LexVerif.Proof.Lemire.tieRows_f32 (by decide)
+  · exact ⟨_, _, layout_f64, key lemLayout_f64 (by decide) (by decide) (by decide) (by decide)
+      LexVerif.Proof.Lemire.tieRows_f64 (by decide)⟩
+  · exact ⟨_, _, layout_f32, key lemLayout_f32 (by decide) (by decide) (by decide) (by decide)
+      LexVerif.Proof.Lemire.tieRows_f32 (by decide)⟩
+
+/-- **`LemireFallbackBrackets` holds** (`Proof.LemireFallback`) -/
+theorem lemire_fallback_brackets : LemireFallbackBrackets := by
+  intro F hF q w fp _ hw hcf hinv
+  obtain ⟨p, eb, lay, hest⟩ := lemire_invalid_estOK F hF q w fp hw hcf hinv
+  have hden : 0 < (powFrac 10 q w).2 := by
+    unfold powFrac; split
+    · exact Nat.one_pos
+    · exact Nat.pow_pos (by decide)
+  exact LexVerif.Proof.Lemire.bracket_of_estOK lay fp _ _ hden hest
+
+/-- what the slow path may assume about the estimate Eisel–Lemire hands over (`SlowDomain.negSide` of
+`Props.C01SlowMain`: normalised mantissa, exponent far inside `±2^20`), together with the bracket -/
+theorem lemire_estimate_facts (F : FTy) (hF : IsLemireFloat F) (q : Int) (w : Nat) (fp : ExtendedFloat80)
+    (hw : w < 2 ^ 64) (hcf : Lemire.computeFloat F q w false = .ok fp) (hinv : fp.exp < 0) :
+    2 ^ 63 ≤ fp.mant ∧ fp.mant < 2 ^ 64 ∧ -(4096 : Int) ≤ fp.exp - invalidFp ∧ fp.exp - invalidFp ≤ 4096 ∧
+      Bracket F fp (powFrac 10 q w).1 (powFrac 10 q w).2 := by
+  obtain ⟨p, eb, lay, hest⟩ := lemire_invalid_estOK F hF q w fp hw hcf hinv
+  have hden : 0 < (powFrac 10 q w).2 := by
+    unfold powFrac; split
+    · exact Nat.one_pos
+    · exact Nat.pow_pos (by decide)
+  exact ⟨hest.1, hest.2.1, hest.2.2.1, hest.2.2.2.1, LexVerif.Proof.Lemire.bracket_of_estOK lay fp _ _ hden hest⟩
 
 /-- **C01.5 `lemire_sound` — proved, unconditional**: for every `i64` exponent and every `u64` mantissa, non-lossy
 `compute_float` never panics and answers either with a valid float that is `roundNE (w·10^q)`, or with an
